@@ -1,4 +1,6 @@
 import RsModel.Lemmas.CodecLookup
+import RsModel.Lemmas.Replay
+import RsModel.Lemmas.PosTree
 /-!
 # C03 — `map()` attributes every position exactly as the chunk stream does
 (T1 of DESIGN: the codec step of the chain.)
@@ -18,5 +20,46 @@ theorem c03_codec_step (ms : List Mapping) (hs : ∀ m ∈ ms, m.small) (h : sor
       | nil => intros; trivial
       | cons m ms ih => intro l c ⟨h1, h2⟩; exact ⟨by omega, ih _ _ h2⟩
     exact this ms 1 0 h
+
+
+/-- **T2: map built from a stream ⇒ same attribution.**  For any stream `r` that honours the stream contract (true positions, tokens,
+texts present — C02, `ChunksTok`, C01), resolving every position of the text through the SourceMap that `get_map` builds from `r`
+("greatest segment at or before the position on that line") gives exactly the original location of the chunk that covers the
+position; and when `get_map` returns no map, no byte of the stream is mapped. -/
+theorem c03_map_of_stream (r : SResult) (hp : PosOK r) (hT : ChunksTok r.evs) (hTL : evsTL r.evs = false)
+    (hsmall : ∀ m ∈ chunkMs r.evs, m.small) :
+    (∀ sm, mapOfEvs true r.evs = some sm → attrFrom (decode sm.mappings) startPos (evsText r.evs) = attrOf r.evs)
+    ∧ (mapOfEvs true r.evs = none → attrOf r.evs = List.replicate (evsText r.evs).length none) := by
+  have hsorted : sortedFrom 1 0 (chunkMs r.evs) := chunkMs_sorted r.evs [] hp.1 hTL
+  constructor
+  · intro sm hm
+    rw [mapOfEvs_mappings _ sm hm, ← attr_of_stream r hp hT hTL]
+    apply attrFrom_congr
+    intro q _ _
+    exact c03_codec_step _ hsmall hsorted q.line q.col
+  · intro hm
+    have := replay_none r hp hT hTL hsmall (mapOfEvs_none _ hm)
+    rw [← this]
+    simp only [streamRaw, Bool.false_eq_true, if_false, rawChunks_eq, attrOf_lineEvs_none, splitLines_join]
+
+/-- **C03 for a ReplaceSource** (columns = true).  `map()` of a ReplaceSource with replacements is `get_map` over the very stream an
+outside caller obtains (it always streams its inner source in normal mode), so by T2 its map resolves every position of `source()`
+to the original location of the streamed chunk covering it, for every inner tree in the domain of C02. -/
+theorem c03_replace (inner : Src) (rs : List Repl) (σ : Store) (hne : rs ≠ [])
+    (hw : (Src.replace inner rs).WF) (hp : (Src.replace inner rs).PosHyp true) (hn : (Src.replace inner rs).ids.Nodup)
+    (hs : StoreHyp true σ (Src.replace inner rs).cachedNodes)
+    (hsmall : ∀ m ∈ chunkMs ((Src.replace inner rs).stream ⟨true, false⟩ σ).1.evs, m.small) :
+    ((Src.replace inner rs).map ⟨true, false⟩ σ).1 = mapOfEvs true ((Src.replace inner rs).stream ⟨true, false⟩ σ).1.evs
+    ∧ (∀ sm, ((Src.replace inner rs).map ⟨true, false⟩ σ).1 = some sm →
+        attrFrom (decode sm.mappings) startPos (Src.replace inner rs).src = attrOf ((Src.replace inner rs).stream ⟨true, false⟩ σ).1.evs) := by
+  have he : rs.isEmpty = false := by cases rs <;> simp_all
+  have hmap : ((Src.replace inner rs).map ⟨true, false⟩ σ).1 = mapOfEvs true ((Src.replace inner rs).stream ⟨true, false⟩ σ).1.evs := by
+    simp only [Src.map, he, Bool.false_eq_true, if_false, getMap, Src.stream]
+  refine ⟨hmap, fun sm hsm => ?_⟩
+  rw [hmap] at hsm
+  have hpos := Src.stream_posOK (.replace inner rs) true σ hw hp hn hs
+  have := (c03_map_of_stream _ hpos (Src.stream_tok _ true σ) (Src.stream_tl _ true σ) hsmall).1 sm hsm
+  rw [Src.stream_text _ true σ hw] at this
+  exact this
 
 end Rs
